@@ -336,6 +336,45 @@ def case_paths(rep):
     return fn
 
 
+BOUNDARY_TEMPLATES = {"quad": "RegionQuadBoundary", "quad8": "RegionQuadraticQuadBoundary", "quad9": "RegionBiQuadraticQuadBoundary",
+                      "hexahedron": "RegionHexahedronBoundary", "hexahedron20": "RegionQuadraticHexahedronBoundary",
+                      "hexahedron27": "RegionTriQuadraticHexahedronBoundary"}
+
+
+def case_boundary_templates(fam, rep):
+    """The boundary templates are region templates as well: a field sampling a polynomial of the element's space is reproduced
+    (value and full gradient, incl. the direction normal to the face) at the quadrature points on the faces."""
+    def fn(run):
+        import felupe as fem
+        rng = rng_for(run.seed, "C06", "boundary-template", fam, rep)
+        F = gen.FAMILIES[fam]
+        dim = F["dim"]
+        geometry = ["affine", "undistorted", "distorted"][rep % 3]
+        mesh, info = gen.build_mesh(fam, geometry, rng)
+        rb = getattr(fem, BOUNDARY_TEMPLATES[fam])(mesh, only_surface=bool(rep % 2))
+        order = F["order"] if geometry != "distorted" else 1
+        kind = F["kind"] if geometry == "undistorted" else "total"
+        exps = monomials_total(dim, order) if kind == "total" else monomials_tensor(dim, order)
+        el, qd = rb.element, rb.quadrature
+        hq = np.array([el.function(pt) for pt in qd.points]).T
+        Xq = np.einsum("caI,aq->qcI", mesh.points[rb.mesh.cells], hq)
+        polys = [Poly(rng, dim, exps) for _ in range(2)]
+        vals = np.stack([p(mesh.points) for p in polys], axis=1)
+        fld = fem.Field(rb, dim=2, values=vals)
+        fs = max(1.0, maxabs(vals))
+        hs = float(np.min(mesh.points[mesh.cells].max(1) - mesh.points[mesh.cells].min(1)))
+        ref = np.stack([p(Xq) for p in polys], 0)
+        gref = np.stack([np.moveaxis(p.grad(Xq), -1, 0) for p in polys], 0)
+        mon = "region.boundary-template"
+        run.compare(mon, "template=%s clause=interpolate" % BOUNDARY_TEMPLATES[fam], maxabs(fld.interpolate() - ref) / fs, 1e-11,
+                    "%s: interpolation on the faces does not reproduce a degree-%d polynomial" % (BOUNDARY_TEMPLATES[fam], order),
+                    unit="boundary-template:%s:interpolate" % fam, config=(fam, geometry, "boundary-interpolate"))
+        run.compare(mon, "template=%s clause=grad" % BOUNDARY_TEMPLATES[fam], maxabs(fld.grad() - gref) * hs / fs, 1e-10,
+                    "%s: the gradient on the faces does not reproduce the analytic gradient of a degree-%d polynomial" % (BOUNDARY_TEMPLATES[fam], order),
+                    unit="boundary-template:%s:grad" % fam, config=(fam, geometry, "boundary-grad"))
+    return fn
+
+
 def case_fields(kind):
     def fn(run):
         import felupe as fem
@@ -595,6 +634,9 @@ def cases(tier, seed):
         out.append(("family-equality:%d" % rep, case_family_equality(rep)))
     for rep in range(6 if tier == "quick" else 18):
         out.append(("paths:%d" % rep, case_paths(rep)))
+    for fam in BOUNDARY_TEMPLATES:
+        for rep in range(3 if tier == "quick" else 9):
+            out.append(("boundary-template:%s:%d" % (fam, rep), case_boundary_templates(fam, rep)))
     return out
 
 
@@ -610,6 +652,7 @@ def _required():
             req.append(fam + ":exact-integration")
     req += ["paths:" + u for u in ("copy-hess", "dhdr-pairing", "extract-flags", "extract-out", "float32-field", "grad-out", "grad-sym", "h-pairing",
                                    "interpolate-out", "lagrange-multicell", "mixed-extract", "reload", "uniform-hess", "uniform-sheared")]
+    req += ["boundary-template:%s:grad" % f for f in BOUNDARY_TEMPLATES]
     return req
 
 
